@@ -80,7 +80,7 @@ size_t GS; char GSC;
  * their definitions, which is the same contract (the enforcing proof covers every ghost value satisfying the definition, and
  * exactly one value does). */
 #ifdef XML_GHOST_INLINE
-#define GOC XML_AT(self, __CPROVER_old(self->_cur))
+#define GOC XML_AT(self, OC)            /* OC = cursor on entry (units/xml_cursor/contracts.h) */
 #define GOC_PRE XML_AT(self, self->_cur)
 #define XML_GOC_DEF(s) 1
 #else
@@ -88,15 +88,24 @@ char GOC;
 #define GOC_PRE GOC
 #define XML_GOC_DEF(s) ((s)->_cur < (s)->_input.n ==> GOC == (s)->_input.p[(s)->_cur])
 #endif
-#define XML_PRE(s) (IORA_TRUE && __CPROVER_is_fresh(s, sizeof(*(s))) && XML_SMALL((s)->_input.n, XML_IN_BITS) \
-                    && __CPROVER_is_fresh((s)->_input.p, (s)->_input.n) && XML_CUR_INV(s) && (GS < (s)->_input.n ==> GSC == (s)->_input.p[GS]) \
+/* memory part of the precondition: fresh objects in a contract; in the assert/havoc/assume stubs of unit xml_next (XML_STUB_MODE, plain
+ * harness, no contract context) the same facts as validity predicates */
+#ifdef XML_STUB_MODE
+#define XML_MEM_SELF(s) __CPROVER_rw_ok(s, sizeof(*(s)))
+#define XML_MEM_IN(s) __CPROVER_r_ok((s)->_input.p, (s)->_input.n)
+#else
+#define XML_MEM_SELF(s) __CPROVER_is_fresh(s, sizeof(*(s)))
+#define XML_MEM_IN(s) __CPROVER_is_fresh((s)->_input.p, (s)->_input.n)
+#endif
+#define XML_PRE(s) (IORA_TRUE && XML_MEM_SELF(s) && XML_SMALL((s)->_input.n, XML_IN_BITS) \
+                    && XML_MEM_IN(s) && XML_CUR_INV(s) && (GS < (s)->_input.n ==> GSC == (s)->_input.p[GS]) \
                     && XML_GOC_DEF(s))
 #define XML_AT(s, i) ((s)->_input.p[i])
 /* slice containment, exact form: view v is the input range [off, off+len) */
 #define XML_SLICE_IS(s, v, off, len) (__CPROVER_same_object((v).p, (s)->_input.p) && (v).p == (s)->_input.p + (off) && (v).n == (len) \
                                       && (off) <= (s)->_input.n && (len) <= (s)->_input.n - (off))
-/* slice containment, general form: v is empty-null or lies inside the input */
-#define XML_SLICE_IN(s, v) (((v).p == NULL && (v).n == 0) || (__CPROVER_same_object((v).p, (s)->_input.p) \
+/* slice containment, general form: v is empty (reports no byte) or lies inside the input */
+#define XML_SLICE_IN(s, v) ((v).n == 0 || (__CPROVER_same_object((v).p, (s)->_input.p) \
    && __CPROVER_POINTER_OFFSET((v).p) >= __CPROVER_POINTER_OFFSET((s)->_input.p) \
    && (v).n <= (s)->_input.n && (size_t)(__CPROVER_POINTER_OFFSET((v).p) - __CPROVER_POINTER_OFFSET((s)->_input.p)) <= (s)->_input.n - (v).n))
 #define XML_IS_SPACE(c) ((c) == (char)32 || (c) == (char)9 || (c) == (char)13 || (c) == (char)10)
